@@ -225,7 +225,31 @@ class World:
         return toks, cheats
 
 
-def run_build(bindir, d, trace, argv, timeout=60, world=None, gate=None, extra_env=None):
+def kill_viewer_of(pid, after_s, give_up_s=20.0):
+    """SIGKILL the log viewer (the redo-log child) of the top-level command `pid`, `after_s` seconds after its start"""
+    t0 = time.time()
+    while time.time() - t0 < give_up_s:
+        try:
+            kids = open('/proc/%d/task/%d/children' % (pid, pid)).read().split()
+        except OSError:
+            return False
+        for c in kids:
+            try:
+                with open('/proc/%s/cmdline' % c, 'rb') as f:
+                    cl = f.read().split(b'\0')
+            except OSError:
+                continue
+            if os.path.basename(cl[0]) == b'redo-log' and time.time() - t0 >= after_s:
+                try:
+                    os.kill(int(c), 9)
+                    return True
+                except OSError:
+                    return False
+        time.sleep(0.001)
+    return False
+
+
+def run_build(bindir, d, trace, argv, timeout=60, world=None, gate=None, extra_env=None, kill_viewer_after=None):
     """one top-level command; returns dict(rc, stderr, timed_out, pid)"""
     extra = dict(extra_env or {})
     pass_fds = ()
@@ -238,6 +262,10 @@ def run_build(bindir, d, trace, argv, timeout=60, world=None, gate=None, extra_e
                          stdout=subprocess.PIPE, stderr=subprocess.PIPE, start_new_session=True, pass_fds=pass_fds)
     if world:
         world.start(p.pid)
+    kv = None
+    if kill_viewer_after is not None:
+        kv = threading.Thread(target=kill_viewer_of, args=(p.pid, kill_viewer_after), daemon=True)
+        kv.start()
     to = False
     try:
         so, se = p.communicate(timeout=timeout)
